@@ -236,6 +236,7 @@ pub struct Stats {
     pub trees: BTreeSet<String>,
     pub single_faulty_rejected: u64,
     pub fault_not_faulty: u64,
+    pub steps_with_obstacle: u64,
     pub faulty_kinds_checked: BTreeMap<String, u64>,
     pub same_base_name_checks: u64,
 }
@@ -286,6 +287,7 @@ impl Stats {
             *self.faulty_kinds_checked.entry(k.clone()).or_insert(0) += v;
         }
         self.same_base_name_checks += o.same_base_name_checks;
+        self.steps_with_obstacle += o.steps_with_obstacle;
     }
 }
 
@@ -456,9 +458,18 @@ impl HistExec {
                 let out = format!("{}/{}", self.root, self.out_rel());
                 std::fs::create_dir_all(&out).expect("target dir");
                 for e in entries {
+                    let p = Path::new(&out).join(&e.path);
                     if e.path.ends_with('/') {
-                        let _ = std::fs::create_dir_all(Path::new(&out).join(&e.path));
+                        // a directory; when a file occupies the path it is replaced
+                        let q = Path::new(&out).join(e.path.trim_end_matches('/'));
+                        if q.is_file() {
+                            let _ = std::fs::remove_file(&q);
+                        }
+                        let _ = std::fs::create_dir_all(&p);
                     } else {
+                        if p.is_dir() {
+                            let _ = std::fs::remove_dir_all(&p);
+                        }
                         write_file(&out, &e.path, e.text.as_bytes());
                     }
                 }
@@ -539,10 +550,39 @@ impl HistExec {
             r = JobResult { verdict: "err".into(), ..Default::default() };
         }
         let fault_configured = crash_at.is_some() || disk_budget.is_some() || plan.iter().any(|p| !is_benign(p));
+        // An obstacle somebody put into the output directory — a directory where a mirrored
+        // file must go, a file where a directory is needed — is an environment fault like an
+        // I/O error: the run may fail (what it touches stays inside the mirror), and may report
+        // success only over the exact tree.
+        let obstacle = {
+            let out_rel = self.out_rel();
+            let mut found = false;
+            for f in &files {
+                let p = format!("{out_rel}/{}", mirrored(&f.path, &self.layout));
+                if before.get(&p).map(|n| n.dir).unwrap_or(false) {
+                    found = true;
+                }
+                let mut cur = Path::new(&p).parent();
+                while let Some(c) = cur {
+                    let s = c.to_string_lossy().into_owned();
+                    if s.is_empty() {
+                        break;
+                    }
+                    if before.get(&s).map(|n| !n.dir).unwrap_or(false) {
+                        found = true;
+                    }
+                    cur = c.parent();
+                }
+            }
+            found
+        };
+        if obstacle {
+            self.stats.steps_with_obstacle += 1;
+        }
 
         // the shipped binary on a copy of the tree (fault-free steps only)
         let mut cli_result: Option<(i32, Tree)> = None;
-        if cli && !fault_configured {
+        if cli && !fault_configured && !obstacle {
             match (std::env::var("MSIM_MAMBA_BIN"), std::env::var("MSIM_PRELOAD")) {
                 (Ok(bin), Ok(pre)) if Path::new(&bin).exists() && Path::new(&pre).exists() => {
                     let copy = format!("{}-cli", self.root);
@@ -621,7 +661,7 @@ impl HistExec {
             "crash" => self.stats.steps_crash += 1,
             _ => self.stats.steps_panic += 1,
         }
-        let mut fault_fired = res.outcome == "crash";
+        let mut fault_fired = res.outcome == "crash" || obstacle;
         for f in &res.fired {
             let k = format!("{}:{}{}", f.call, f.kind, if f.kind == "errno" { format!("({})", f.arg) } else { String::new() });
             if f.benign {
@@ -793,7 +833,9 @@ impl HistExec {
                 } else {
                     self.stats.err_tree_other += 1;
                 }
-                self.needs_recovery = true;
+                if !obstacle {
+                    self.needs_recovery = true;
+                }
             }
         }
         let fired_keys: Vec<String> = {
